@@ -859,7 +859,7 @@ def drive_script(exe, script, logpath, wait_s=90, deadline_s=900):
     """feed a recorded UCI script (harness/session.h record mode) to `exe` under valgrind memcheck.  Returns a dict with
     valgrind's report (or ''), counts, and whether a wait timed out (inconclusive)"""
     import threading, queue
-    cmd = ['valgrind', '-q', '--error-exitcode=97', '--read-var-info=no', '--track-origins=yes', '--log-file=' + logpath, exe]
+    cmd = ['valgrind', '-q', '--vgdb=no', '--error-exitcode=97', '--read-var-info=no', '--track-origins=yes', '--log-file=' + logpath, exe]
     p = subprocess.Popen(cmd, stdin=subprocess.PIPE, stdout=subprocess.PIPE, stderr=subprocess.STDOUT, text=True, bufsize=1)
     q = queue.Queue()
 
